@@ -142,6 +142,8 @@ type FnGen struct {
 	assumeSeenLen int
 	// candidate witnesses for integer existentials (loop indices), see ceval quant
 	witnesses []*Term
+	// number of heap havocs so far
+	havocCount int
 }
 
 func (fg *FnGen) note(s string) { fg.notes[s] = true }
@@ -348,6 +350,7 @@ func (fg *FnGen) set(st *State, name, sort string, v *Term) {
 
 // havocAll returns a new state where every heap variable is unknown (iterator positions and defer flags are kept).
 func (fg *FnGen) havocAll(st *State) *State {
+	fg.havocCount++
 	g := fg.newGen(&genInfo{kind: "partial", all: true, parent: st, set: map[string]bool{}})
 	return &State{gen: g, over: map[string]*Term{}}
 }
